@@ -145,6 +145,25 @@ def _is_word_read(n, word, linit):
     return isinstance(n, dict) and n.get('k') == 'mem' and n.get('field') and n.get('name') == word and A.root(n.get('base'), linit)[0] == 'this'
 
 
+def _is_own_capacity(n, linit, body):
+    """The capacity that travels with this object's block: the `_capa` word, `capacity()` of this, or a never re-assigned local
+    initialised with one of them."""
+    n = A.strip(n)
+    hops = 0
+    while isinstance(n, dict) and n.get('k') == 'ref' and n.get('dk') == 'local' and hops < 3:
+        ini = linit.get(n.get('did'))
+        if not ini or ini[0] is None:
+            return False
+        if any(isinstance(A.strip(l), dict) and A.strip(l).get('k') == 'ref' and A.strip(l).get('did') == n.get('did') for _st, l in A.stores(body)):
+            return False
+        n = A.strip(ini[0])
+        hops += 1
+    if _is_word_read(n, '_capa', linit):
+        return True
+    return isinstance(n, dict) and n.get('k') == 'call' and n.get('method') and A.cshort(n) == 'capacity' and not n.get('args') and \
+        (n.get('obj') is None or A.root(n.get('obj'), linit)[0] == 'this')
+
+
 def _param_idx(n):
     n = A.strip(n)
     if isinstance(n, dict) and n.get('k') == 'ref' and n.get('dk') == 'param':
@@ -225,7 +244,7 @@ def alloc_args(progs):
                                        'deallocate is not given the block together with the capacity it was obtained with: %s' % why, where=f['pname'], unit=prog.uname))
                 elif in_base and A.callee(c) == 'amc::vec::Reallocate' and len(args) >= 5:
                     okp = is_this_storage(args[1], linit)
-                    oko = _is_word_read(args[2], '_capa', linit)
+                    oko = _is_own_capacity(args[2], linit, body)
                     oks = _is_word_read(args[4], '_size', linit)
                     # the 4th argument is what is stored into _capa afterwards
                     later = [st for st, l in A.stores(body) if _is_word_read(l, '_capa', linit) and pos.get(id(st), 0) > pos[id(c)] and st.get('k') == 'bin' and st.get('op') == '=']
@@ -602,6 +621,33 @@ def block(progs):
                     if isinstance(l, dict) and l.get('k') == 'ref' and l.get('dk') == 'local' and isinstance(r, dict) and r.get('k') == 'call' \
                             and A.cshort(r) == 'allocate' and r.get('method'):
                         bound[id(r)] = l['did']
+            # a block handed to a local scope guard (a local object whose destructor gives the block back unless dismissed) is owned
+            # by the guard from its declaration on, provided nothing can throw between the request and that declaration
+            if bound:
+                order = A.eval_order(body, f.get('inits'))
+                for n in walk(body):
+                    if n.get('k') != 'decl':
+                        continue
+                    for v in n.get('vars', []):
+                        ty = (v.get('t') or '').replace('const ', '').strip()
+                        dt = next((g for g in prog.fns.values() if g.get('kind') == 'dtor' and g.get('cls') == ty), None)
+                        if dt is None or v.get('init') is None:
+                            continue
+                        if not any(short((prog.fns.get(x) or {}).get('name', '')) == 'deallocate' for x in prog.reachable(dt['id'])):
+                            continue
+                        used = BlockClient._locals_in(v['init'])
+                        for cid, did in list(bound.items()):
+                            if did in used:
+                                call = next((c for c in A.calls(body) if id(c) == cid), None)
+                                between = [c for c in A.calls(body) if call is not None and id(c) in order and id(call) in order and
+                                           order[id(call)] < order[id(c)] and (id(A.strip(v['init'])) not in order or order[id(c)] < order[id(A.strip(v['init']))]) and may(c)]
+                                first_in_init = min([order[id(x)] for x in walk(v['init']) if id(x) in order] or [None])
+                                between = [c for c in A.calls(body) if call is not None and id(c) in order and first_in_init is not None and
+                                           order[id(call)] < order[id(c)] < first_in_init and may(c)]
+                                if not between:
+                                    del bound[cid]
+                                    rr.instance('%s|guard|%s' % (f['key'], prog.uname), {'function': f['pname'][:150], 'unit': prog.uname,
+                                                                                         'block_owned_by_scope_guard': ty[:80]})
             if not bound:
                 continue
             cl = BlockClient(f, may, bound)
